@@ -20,6 +20,10 @@ Open Scope Z_scope.
 Definition C04_full_statement : Prop :=
   forall c w r, inv c -> decode_attrs w = Ok r -> other_ok w -> step_ok c r w.
 
+Theorem C04_full_statement_refuted : ~ C04_full_statement.
+Proof. exact full_step_statement_refuted. Qed.
+Print Assumptions C04_full_statement_refuted.
+
 (* one step: serve = spec_exec up to the abstraction; the invariant is preserved; the
    response is the spec's response; an exception leaves the store untouched *)
 Theorem C04_refines : forall c w r,
